@@ -2,6 +2,7 @@ import BoxoModel.C06.Go
 /-! Line-protocol driver for C06 (see /verif/docs/HOWTO.md).
 Ops (all operands are single tokens):
   parse <spec-hex>                               → err | size N | rabin MIN ⌊log2 AVG⌋ MAX | buzhash | custom
+  defsize <n>                                    → ok                (sets chunker.DefaultBlockSize for the rest of the case)
   register <name-hex>                            → ok | panic        (chunk.Register with a non-nil function)
   chan <same operands as split>                  → as split (chunks received from chunk.Chan)
   fail <spec-hex> <frags> <input> <pos>          → checked           (reader failing at <pos>: Go-side monitor only)
@@ -96,8 +97,8 @@ def showParsed : Option Parsed → String
   | some (.custom _) => "custom"
   | some (.builtin sp) => showSpec (some sp)
 
-def runSplit (sp ewd fr inp cands : String) : String :=
-  match parseSpec goLimits (specString sp) with
+def runSplit (L : Limits) (sp ewd fr inp cands : String) : String :=
+  match parseSpec L (specString sp) with
   | none => "err"
   | some spec =>
     let data := inputOf inp
@@ -112,24 +113,33 @@ def runSplit (sp ewd fr inp cands : String) : String :=
     let lens := chunks.map List.length
     s!"n={lens.length} total={lens.foldl (· + ·) 0} lens={rle lens}"
 
-/-- state: the registry (`Register` calls of the current case; reset at `case`) -/
-def step (reg : Registry) (line : String) : Registry × String :=
-  match (line.trimAscii.toString.splitOn " ").filter (· ≠ "") with
-  | ["case", n] => (builtinNames, s!"case {n}")
-  | ["end"] => (builtinNames, "end")
-  | ["parse", sp] => (reg, showParsed (parseWith goLimits reg (specString sp).toList))
-  | ["register", nm] =>
-    match register reg (specString nm).toList with
-    | some reg' => (reg', "ok")
-    | none => (reg, "panic")
-  | ["split", sp, ewd, fr, inp, cands] => (reg, runSplit sp ewd fr inp cands)
-  -- `Chan(splitter)`: a goroutine calling NextBytes until the first error = `drain`
-  | ["chan", sp, ewd, fr, inp, cands] => (reg, runSplit sp ewd fr inp cands)
-  -- reader failing with a non-EOF error: checked by the Go-side monitor only
-  | ["fail", _, _, _, _] => (reg, "checked")
-  | _ => (reg, "bad-op")
+/-- state: the registry (`Register` calls of the current case) and the current value of the exported variable
+`chunker.DefaultBlockSize` (`defsize`); both reset at `case` -/
+structure St where
+  reg : Registry := builtinNames
+  defSize : Nat := goLimits.defaultBlockSize
 
-partial def loop (h : IO.FS.Stream) (out : IO.FS.Stream) (reg : Registry) : IO Unit := do
+def St.limits (st : St) : Limits := { goLimits with defaultBlockSize := st.defSize }
+
+def step (st : St) (line : String) : St × String :=
+  match (line.trimAscii.toString.splitOn " ").filter (· ≠ "") with
+  | ["case", n] => ({}, s!"case {n}")
+  | ["end"] => ({}, "end")
+  | ["parse", sp] => (st, showParsed (parseWith st.limits st.reg (specString sp).toList))
+  | ["register", nm] =>
+    match register st.reg (specString nm).toList with
+    | some reg' => ({ st with reg := reg' }, "ok")
+    | none => (st, "panic")
+  -- `chunker.DefaultBlockSize = n`: the default spec is size-N with N = the value when the splitter is created
+  | ["defsize", n] => ({ st with defSize := n.toNat! }, "ok")
+  | ["split", sp, ewd, fr, inp, cands] => (st, runSplit st.limits sp ewd fr inp cands)
+  -- `Chan(splitter)`: a goroutine calling NextBytes until the first error = `drain`
+  | ["chan", sp, ewd, fr, inp, cands] => (st, runSplit st.limits sp ewd fr inp cands)
+  -- reader failing with a non-EOF error: checked by the Go-side monitor only
+  | ["fail", _, _, _, _] => (st, "checked")
+  | _ => (st, "bad-op")
+
+partial def loop (h : IO.FS.Stream) (out : IO.FS.Stream) (reg : St) : IO Unit := do
   let line ← h.getLine
   if line.isEmpty then return ()
   let (reg', o) := step reg line
@@ -137,4 +147,4 @@ partial def loop (h : IO.FS.Stream) (out : IO.FS.Stream) (reg : Registry) : IO U
   loop h out reg'
 
 def main : IO Unit := do
-  loop (← IO.getStdin) (← IO.getStdout) builtinNames
+  loop (← IO.getStdin) (← IO.getStdout) {}
